@@ -702,6 +702,13 @@ def run_scenario(stg, driver, unicode_path, steps, oracles=(), tag="h", keep_goi
                     # model has no untracked files)
                     result["out_of_model"] = {"step": i, "cmd": c, "stderr": stderr[-200:]}
                     break
+                if d and "merge-recursive" in stderr and "untracked working tree files would be overwritten" in stderr:
+                    # F39 within ONE command: `git apply --3way` in the temporary index (try_squash, the
+                    # first attempt of a push) checked a file out into the work tree, and the work-tree
+                    # merge that follows refuses to overwrite that now-untracked file: the command halts
+                    # where the clean model (no untracked files) merges (DESIGN.md section 10.4)
+                    result["out_of_model"] = {"step": i, "cmd": c, "stderr": stderr[-200:]}
+                    break
                 if d and "merge-recursive" in stderr and "local changes" in stderr:
                     # merge-recursive refusing to touch locally modified files during the
                     # work-tree merge of a push is outside the model (recorded, not compared);
